@@ -16,10 +16,20 @@ CHECKS = {
         "bound_text": "all 7x7 kind pairings, full 64-bit ints/float bit patterns (NaN, inf, -0 included); strings/arrays of length <= 2 (index laws: <= 3), array nesting 1",
         "assumptions": ["operands are well-formed values as built by the package's constructors", "shift semantics only pinned down for counts 0..63 (and non-negative left operand for >>); other counts: must yield an int without fault"],
     },
+    "C14": {
+        "runs": [
+            {"harness": ["lexer.VerifC14Lex", "lexer.VerifC14Layout"], "pkgs": ["./lexer"], "fuel": 200000,
+             "params_quick": {"n": 3, "ascii": 1}, "params_thorough": {"n": 4, "ascii": 1},
+             "covers": {"VerifC14Lex": ["accepted", "rejected"], "VerifC14Layout": ["compared"]}},
+        ],
+        "bound_text": "all ASCII inputs of exactly n bytes (quick n<=3, thorough n<=4), every byte symbolic",
+        "assumptions": ["string literal text is compared after the lexer's own \\n escape replacement"],
+    },
     "C15": {
         "runs": [
             {"harness": ["types/bytecode.VerifC15Enc", "types/bytecode.VerifC15Patch"], "pkgs": ["./types/bytecode"],
              "covers": {"VerifC15Enc": ["refused", "encoded"], "VerifC15Patch": ["refused", "patched"]}, "cross": 1},
+            {"harness": ["types/value.VerifC15Func"], "pkgs": ["./types/value"], "covers": {"VerifC15Func": ["done"]}, "cross": 1},
         ],
         "bound_text": "H1: all 2^7 opcodes x 3 operand slots x 8 operand kinds x all 2^64 addresses, no loops",
         "assumptions": ["EncodeSrc's own range panic counts as the compile-time refusal"],
